@@ -158,9 +158,9 @@ pub fn c02_corpus<V: Fv>(seed: u64, thorough: bool, out: &mut Shards) {
     let nkeys = if thorough { 3 } else { 1 };
     let keys: Vec<(V::Sk, V::Pk)> = (0..nkeys + 1).map(|_| V::keygen(rng.gen())).collect();
     let lens: Vec<usize> = if thorough {
-        vec![0, 1, 5, 40, 95, 96, 97, 135, 136, 137, 271, 272, 273, 1000, 4096]
+        vec![0, 1, 5, 40, 95, 96, 97, 135, 136, 137, 271, 272, 273, 1000, 4056, 4057, 4096, 16385]
     } else {
-        vec![0, 5, 96, 300]
+        vec![0, 5, 96, 300, 4057]
     };
     let body_len = V::SIG_LEN - 41;
     for (ki, (sk, pk)) in keys.iter().take(nkeys).enumerate() {
